@@ -144,12 +144,21 @@ def run(ctx):
                     and not isinstance(n.value, ast.Constant):
                 col_want = "inboundSeqNo" if n.targets[0].attr == "next_num_in" else "outboundSeqNo"
                 val = n.value
-                ok = False
-                if isinstance(val, ast.BinOp) and isinstance(val.op, ast.Add) and isinstance(val.right, ast.Constant) and val.right.value == 1 \
-                        and isinstance(val.left, ast.Subscript) and isinstance(val.left.slice, ast.Constant) and sel:
-                    cols = sel[-1].stmt.columns
-                    i = val.left.slice.value
-                    ok = isinstance(i, int) and i < len(cols) and cols[i] == col_want
+                # through a local: every value it can hold (the constant 1 of a new session aside) must be column + 1
+                cands = [val]
+                fparams_ = {a_.arg for a_ in v.fn.args.args}
+                if isinstance(val, ast.Name) and val.id not in fparams_:
+                    dd = [x.value for x in walk_no_nested(v.fn) if isinstance(x, ast.Assign) and len(x.targets) == 1 and unparse(x.targets[0]) == val.id]
+                    cands = [d for d in dd if not (isinstance(d, ast.Constant) and d.value == 1)] or cands
+
+                def plus_one_of_col(e):
+                    if isinstance(e, ast.BinOp) and isinstance(e.op, ast.Add) and isinstance(e.right, ast.Constant) and e.right.value == 1 \
+                            and isinstance(e.left, ast.Subscript) and isinstance(e.left.slice, ast.Constant) and sel:
+                        cols = sel[-1].stmt.columns
+                        i = e.left.slice.value
+                        return isinstance(i, int) and i < len(cols) and cols[i] == col_want
+                    return False
+                ok = bool(cands) and all(plus_one_of_col(c) for c in cands)
                 ctx.instance("C09.loaders-agree", f"Journaler.{name}[{n.targets[0].attr}]", ok,
                              f"{name}() restores {n.targets[0].attr} as `{short(val, 40)}`, not {col_want} + 1: the restored counter differs from the one the old object held", loc(n))
     ctx.floor("C09.loaders-agree", 4)
